@@ -72,6 +72,7 @@ type Contract struct {
 	Trusted   string   // reason the body is not verified (e.g. reflection); contract is then an assumption
 	NoSafety  bool
 	Abstracted bool
+	Calls     []string // function-typed parameters the (assumed) function may call: its effect includes theirs
 	NoEager   bool     // do not instantiate quantified hypotheses at the constants 0..10 (goal-directed instances only)
 	TailSize  int      // joins in loop-free function tails of up to this many blocks are not merged (default 10)
 	InlineCalls []string // callees (short names) expanded in place although they have a contract
@@ -196,7 +197,7 @@ type ContractSet struct {
 
 var keywords = map[string]bool{"spec": true, "global": true, "func": true, "assume": true, "props": true, "requires": true,
 	"ensures": true, "modifies": true, "inline": true, "loop": true, "lemma": true, "panics": true, "trusted": true,
-	"nosafety": true, "abstracted": true, "unpack": true, "noeager": true, "inlinecalls": true, "tail": true, "pure": true, "uf": true, "specname": true, "split": true, "at": true, "after": true, "assumes": true, "small": true, "returns": true, "sets": true, "witness": true, "replay": true, "remainder": true, "sweep": true, "bound": true}
+	"nosafety": true, "abstracted": true, "unpack": true, "noeager": true, "calls": true, "inlinecalls": true, "tail": true, "pure": true, "uf": true, "specname": true, "split": true, "at": true, "after": true, "assumes": true, "small": true, "returns": true, "sets": true, "witness": true, "replay": true, "remainder": true, "sweep": true, "bound": true}
 
 var labelRe = regexp.MustCompile(`^\[([A-Za-z0-9_.\-]+)\]\s*`)
 
@@ -512,6 +513,8 @@ func parseContractFile(path string, cs *ContractSet) error {
 					return fmt.Errorf("%s:%d: tail <blocks>", path, l.line)
 				}
 				cur.TailSize = n
+			case "calls":
+				cur.Calls = append(cur.Calls, strings.Fields(rest)...)
 			case "noeager":
 				cur.NoEager = true
 			case "unpack":
